@@ -60,7 +60,7 @@ class Violation(Exception):
 class IdentSim(object):
     def __init__(self, sc):
         self.sc = sc
-        self.world = World(sc["seed"])
+        self.world = World(sc["seed"], sc.get("tz"))
         self.violations = []
         self.history = []
         self.counters = {}
@@ -255,6 +255,11 @@ class IdentSim(object):
                 self.viol(i, "find-nameid-misses-live", "user=%s filter=%r missing=%r got=%r" % (u, kw, t, got_t))
                 raise Violation()
         for g in got_t:
+            for k, v in kw.items():
+                if (g[FIELDS.index(k)] or None) != (v or None):
+                    # a lookup narrowed to one SP / format must not hand out an identifier made for another
+                    self.viol(i, "find-nameid-ignores-filter", "user=%s filter=%r got=%r" % (u, kw, g))
+                    raise Violation()
             if not g[4] or g not in self.live.get(u, []):
                 # an identifier nobody issued (e.g. a NameID without any content decoded from a stale entry)
                 if not g[4]:
@@ -445,7 +450,7 @@ class IdentSim(object):
 class CacheSim(object):
     def __init__(self, sc):
         self.sc = sc
-        self.world = World(sc["seed"])
+        self.world = World(sc["seed"], sc.get("tz"))
         self.violations = []
         self.history = []
         self.counters = {}
@@ -786,7 +791,7 @@ def gen_c18(seed, tier):
             flt = None
             if r.chance(0.5):
                 flt = {"sp_name_qualifier": r.pick(spqs) or None}
-                if r.chance(0.5):
+                if r.chance(0.7):
                     flt["format"] = r.pick(list(FORMATS.values()))
             evs.append({"k": k, "u": u, "filter": flt})
         elif k == "mapping":
@@ -892,13 +897,22 @@ def gen_c19(seed, tier):
         elif k == "jump":
             e.update({"delta": r.pick([-3600, -2, -1, 1, 2, 3, 3600, 7200])})
         evs.append(e)
-    return {"engine": "storesim", "prop": "C19", "seed": seed, "tier": tier, "subjects": subjects,
+    # environment: the local time zone of the SP process (expiry is defined in UTC; nothing may depend on it)
+    tz = mkrng(seed, "faults").pick([None, None, None, "CET-1", "EST5", "IST-5:30", "NZST-12", "UTC0"])
+    return {"engine": "storesim", "prop": "C19", "seed": seed, "tier": tier, "subjects": subjects, "tz": tz,
             "knobs": {"n": n, "focus_subject": focus_subj, "sources": len(use_sources), "attrs": len(use_attrs),
                       "enabled": sorted(enabled)}, "events": evs}
 
 
 def generate(seed, prop, tier):
     return gen_c18(seed, tier) if prop == "C18" else gen_c19(seed, tier)
+
+
+def simplify(sc):
+    if sc.get("tz"):
+        c = json.loads(json.dumps(sc))
+        c["tz"] = None
+        yield c
 
 
 def execute(sc):
@@ -909,6 +923,8 @@ def execute(sc):
     counters = dict(sim.counters)
     counters["fault.entropy-repeat.fired"] = sim.world.ids.repeats_fired
     counters["ops"] = len(sim.history)
+    if sc.get("tz"):
+        counters["fault.local-time-zone"] = 1
     return {"violations": sim.violations, "signature": signature, "digest": digest, "counters": counters,
             "sim_seconds": sim.world.clock.t - sim.world.clock.start + sum(abs(v) for v in sim.world.clock.offsets.values()),
             "nontrivial": len(sim.history) >= 3, "steps": len(sim.history),
@@ -923,7 +939,7 @@ PLAN = {"C18": {"quick": dict(_Q, runs=20000), "thorough": dict(_T, runs=600000)
         "C19": {"quick": dict(_Q, runs=6000), "thorough": dict(_T, runs=200000)}}
 COMPONENTS = {"real": ["saml2_tophat.ident.IdentDB, code, decode", "saml2_tophat.cache.Cache",
                        "saml2_tophat.population.Population", "saml2_tophat.time_util", "shelve on dbm.dumb (real files in a per-run temp dir)"],
-              "stub": ["wall clock -> SimClock", "random.SystemRandom -> seeded id stream with entropy-repeat fault",
+              "stub": ["wall clock -> SimClock", "process time zone -> per-run TZ (C19)", "random.SystemRandom -> seeded id stream with entropy-repeat fault",
                        "callers (Server / Saml2Client) -> generated operation sequences"]}
 RULE_TEXT = {"*": "one evaluation = one generated operation history (length 4..200) applied to the real store and to the "
                   "reference model, invariants after every step; non-trivial = at least 3 operations executed; "
